@@ -21,6 +21,11 @@ import TwProofs.Lemmas.PrattFull
 import TwProofs.Lemmas.PrattFullEval
 import TwProofs.Lemmas.LexWsTop
 import TwProofs.Lemmas.PrattErase
+import TwProofs.Lemmas.TextArith
+import TwProofs.Lemmas.TextArith2
+import TwProofs.Lemmas.TextArith3
+import TwProofs.Lemmas.TextArith4
+import TwProofs.Lemmas.TextTernary
 
 namespace Tw.C01
 open Tw TwSpec
@@ -342,5 +347,242 @@ example : renders "{{ 9223372036854775807 + 1 }}" [] "-9223372036854775808" = tr
 example : failsWith "{{ 1 + \"a\" }}" [] "ErrTypeMismatch" [b "INTEGER", b "+", b "STRING"] = true := by decide +kernel
 example : failsWith "{{ 9223372036854775808 }}" [] "ErrCouldNotParseAs" [b "9223372036854775808", b "INT"] = true := by
   decide +kernel
+
+/-! ### integer literals and the operators of the product level, from the source bytes -/
+
+/-- **an integer literal is decimal, from the source bytes on**: `{{ d }}` for a string of decimal digits
+    `d` that fits in an int64 — leading zeros or not, any white space inside the braces — renders the
+    number with that decimal value (`010` is ten, not eight).  Lexer (`code_int_step`: the digits are one
+    INT token), parser (`parseInt64_digits`) and evaluator composed. -/
+theorem int_literal_prints_from_source (custom : List ((VType × Bytes) × Nat)) (data : List (Bytes × GoVal)) (env : Env)
+    (h : envFromMap data = .ok env) (d : Bytes) (hd : isDigits d) (hb : digitsToNat d < 2 ^ 63)
+    (g1 g2 : Bytes) (hg1 : allWs g1) (hg2 : allWs g2) :
+    evaluateStringPure custom (intSrc g1 d g2) data = .ok (int64ToBytes (Int64.ofNat (digitsToNat d))) := by
+  obtain ⟨prog, t2, hp, hs⟩ := parse_int_source g1 d g2 hg1 hg2 hd (by omega)
+  unfold evaluateStringPure envOrFail
+  rw [hp]
+  simp only [h, hs]
+  rw [show evalFuel = (evalFuel - 4) + 1 + 1 + 1 + 1 from by decide, evalProg_cons, evalStmt_succ]
+  simp only [stmtBody, calleesAt_expr]
+  simp only [evalExpr, Res.bind_ok]
+  rw [evalProg_nil]
+  simp [resToOut, Val.toStr]
+
+/-- **`*`, `/` and `%` between two integer literals, from the source bytes on**: `{{ a op b }}` — any white
+    space around the numbers and the operator — renders what `intInfix` (Go's int64 arithmetic: wrap-around
+    product, truncated quotient, remainder with the sign of the dividend) answers on the two decimal
+    values. -/
+theorem int_product_level_prints_from_source (custom : List ((VType × Bytes) × Nat)) (data : List (Bytes × GoVal)) (env : Env)
+    (h : envFromMap data = .ok env) (a b' : Bytes) (ha : isDigits a) (hbd : isDigits b') (hba : digitsToNat a < 2 ^ 63)
+    (hbb : digitsToNat b' < 2 ^ 63) (c : Byte) (ty : TT) (hop : ProdOp c ty)
+    (g1 g2 g3 g4 : Bytes) (hg1 : allWs g1) (hg2 : allWs g2) (hg3 : allWs g3) (hg4 : allWs g4) (v : Val)
+    (hv : ∀ line, intInfix [c] (Int64.ofNat (digitsToNat a)) (Int64.ofNat (digitsToNat b')) line = .ok v) :
+    evaluateStringPure custom (arithSrc g1 a g3 c g4 b' g2) data = .ok v.toStr := by
+  obtain ⟨prog, t2, t3, t4, hp, hs⟩ := parse_arith_source g1 a g3 c ty g4 b' g2 hg1 hg2 hg3 hg4 ha hbd hop (by omega) (by omega)
+  unfold evaluateStringPure envOrFail
+  rw [hp]
+  simp only [h, hs]
+  rw [show evalFuel = (evalFuel - 6) + 1 + 1 + 1 + 1 + 1 + 1 from by decide, evalProg_cons, evalStmt_succ]
+  simp only [stmtBody, calleesAt_expr]
+  simp only [evalExpr, infixOp, Val.type, hv, show (VType.INTEGER != VType.INTEGER) = false from by decide, Bool.false_eq_true, if_false, Res.bind_ok]
+  rw [evalProg_nil]
+  simp [resToOut]
+
+/-- the product of two integer literals is Go's int64 product -/
+theorem int_product_prints_from_source (custom : List ((VType × Bytes) × Nat)) (data : List (Bytes × GoVal)) (env : Env)
+    (h : envFromMap data = .ok env) (a b' : Bytes) (ha : isDigits a) (hbd : isDigits b') (hba : digitsToNat a < 2 ^ 63)
+    (hbb : digitsToNat b' < 2 ^ 63) (g1 g2 g3 g4 : Bytes) (hg1 : allWs g1) (hg2 : allWs g2) (hg3 : allWs g3) (hg4 : allWs g4) :
+    evaluateStringPure custom (arithSrc g1 a g3 42 g4 b' g2) data =
+      .ok (int64ToBytes (Int64.ofNat (digitsToNat a) * Int64.ofNat (digitsToNat b'))) := by
+  have := int_product_level_prints_from_source custom data env h a b' ha hbd hba hbb 42 .MUL (Or.inl ⟨rfl, rfl⟩) g1 g2 g3 g4 hg1 hg2 hg3 hg4
+    (.int (Int64.ofNat (digitsToNat a) * Int64.ofNat (digitsToNat b'))) (fun _ => by rfl)
+  simpa [Val.toStr] using this
+
+/-- **all five arithmetic operators between two integer literals, from the source bytes on**: `{{ a op b }}`
+    for `+`, `-` (not doubled), `*`, `/`, `%` — any white space around the numbers and the operator —
+    renders what `intInfix` answers on the two decimal values. -/
+theorem int_arithmetic_prints_from_source (custom : List ((VType × Bytes) × Nat)) (data : List (Bytes × GoVal)) (env : Env)
+    (h : envFromMap data = .ok env) (a b' : Bytes) (ha : isDigits a) (hbd : isDigits b') (hba : digitsToNat a < 2 ^ 63)
+    (hbb : digitsToNat b' < 2 ^ 63) (c : Byte) (ty : TT) (pr : Nat) (hop : ArithOp c ty pr)
+    (g1 g2 g3 g4 : Bytes) (hg1 : allWs g1) (hg2 : allWs g2) (hg3 : allWs g3) (hg4 : allWs g4) (v : Val)
+    (hv : ∀ line, intInfix [c] (Int64.ofNat (digitsToNat a)) (Int64.ofNat (digitsToNat b')) line = .ok v) :
+    evaluateStringPure custom (arithSrc g1 a g3 c g4 b' g2) data = .ok v.toStr := by
+  obtain ⟨prog, t2, t3, t4, hp, hs⟩ := parse_arith2_source g1 a g3 c ty g4 b' g2 hg1 hg2 hg3 hg4 ha hbd pr hop (by omega) (by omega)
+  unfold evaluateStringPure envOrFail
+  rw [hp]
+  simp only [h, hs]
+  rw [show evalFuel = (evalFuel - 6) + 1 + 1 + 1 + 1 + 1 + 1 from by decide, evalProg_cons, evalStmt_succ]
+  simp only [stmtBody, calleesAt_expr]
+  simp only [evalExpr, infixOp, Val.type, hv, show (VType.INTEGER != VType.INTEGER) = false from by decide, Bool.false_eq_true, if_false, Res.bind_ok]
+  rw [evalProg_nil]
+  simp [resToOut]
+
+/-- the sum and the difference of two integer literals are Go's int64 sum and difference (wrap-around) -/
+theorem int_sum_prints_from_source (custom : List ((VType × Bytes) × Nat)) (data : List (Bytes × GoVal)) (env : Env)
+    (h : envFromMap data = .ok env) (a b' : Bytes) (ha : isDigits a) (hbd : isDigits b') (hba : digitsToNat a < 2 ^ 63)
+    (hbb : digitsToNat b' < 2 ^ 63) (g1 g2 g3 g4 : Bytes) (hg1 : allWs g1) (hg2 : allWs g2) (hg3 : allWs g3) (hg4 : allWs g4) :
+    evaluateStringPure custom (arithSrc g1 a g3 43 g4 b' g2) data =
+      .ok (int64ToBytes (Int64.ofNat (digitsToNat a) + Int64.ofNat (digitsToNat b'))) := by
+  have := int_arithmetic_prints_from_source custom data env h a b' ha hbd hba hbb 43 .ADD SUM (Or.inr ⟨Or.inl ⟨rfl, rfl⟩, rfl⟩)
+    g1 g2 g3 g4 hg1 hg2 hg3 hg4 (.int (Int64.ofNat (digitsToNat a) + Int64.ofNat (digitsToNat b'))) (fun _ => by rfl)
+  simpa [Val.toStr] using this
+
+theorem int_difference_prints_from_source (custom : List ((VType × Bytes) × Nat)) (data : List (Bytes × GoVal)) (env : Env)
+    (h : envFromMap data = .ok env) (a b' : Bytes) (ha : isDigits a) (hbd : isDigits b') (hba : digitsToNat a < 2 ^ 63)
+    (hbb : digitsToNat b' < 2 ^ 63) (g1 g2 g3 g4 : Bytes) (hg1 : allWs g1) (hg2 : allWs g2) (hg3 : allWs g3) (hg4 : allWs g4) :
+    evaluateStringPure custom (arithSrc g1 a g3 45 g4 b' g2) data =
+      .ok (int64ToBytes (Int64.ofNat (digitsToNat a) - Int64.ofNat (digitsToNat b'))) := by
+  have := int_arithmetic_prints_from_source custom data env h a b' ha hbd hba hbb 45 .SUB SUM (Or.inr ⟨Or.inr ⟨rfl, rfl⟩, rfl⟩)
+    g1 g2 g3 g4 hg1 hg2 hg3 hg4 (.int (Int64.ofNat (digitsToNat a) - Int64.ofNat (digitsToNat b'))) (fun _ => by rfl)
+  simpa [Val.toStr] using this
+
+example : evaluateStringPure [] (b "{{ 3-5 }}") [] = .ok (b "-2") := by
+  have := int_difference_prints_from_source [] [] [[]] (by rfl) (b "3") (b "5") (by decide) (by decide) (by decide) (by decide)
+    [32] [32] [] [] (by decide) (by decide) (by decide) (by decide)
+  have hs : arithSrc [32] (b "3") [] 45 [] (b "5") [32] = b "{{ 3-5 }}" := by decide
+  rw [hs] at this
+  rw [this]; rfl
+
+/-- **two operators group by binding power, from the source bytes on (the tighter second operator)**:
+    in `{{ a op1 b op2 d }}` — three integer literals, two of the five arithmetic operators, any white
+    space — a second operator that binds tighter than the first takes `b`: the render is
+    `a op1 (b op2 d)`. -/
+theorem tighter_second_operator_takes_the_middle_from_source (custom : List ((VType × Bytes) × Nat)) (data : List (Bytes × GoVal)) (env : Env)
+    (h : envFromMap data = .ok env) (a b' d : Bytes) (ha : isDigits a) (hbd : isDigits b') (hdd : isDigits d)
+    (hba : digitsToNat a < 2 ^ 63) (hbb : digitsToNat b' < 2 ^ 63) (hbd' : digitsToNat d < 2 ^ 63)
+    (c1 : Byte) (ty1 : TT) (pr1 : Nat) (c2 : Byte) (ty2 : TT) (pr2 : Nat) (hop1 : ArithOp c1 ty1 pr1) (hop2 : ArithOp c2 ty2 pr2)
+    (hlt : pr1 < pr2)
+    (g1 g2 g3 g4 g5 g6 : Bytes) (hg1 : allWs g1) (hg2 : allWs g2) (hg3 : allWs g3) (hg4 : allWs g4) (hg5 : allWs g5) (hg6 : allWs g6)
+    (y : Int64) (v : Val)
+    (h1 : ∀ line, intInfix [c2] (Int64.ofNat (digitsToNat b')) (Int64.ofNat (digitsToNat d)) line = .ok (.int y))
+    (h2 : ∀ line, intInfix [c1] (Int64.ofNat (digitsToNat a)) y line = .ok v) :
+    evaluateStringPure custom (arith3Src g1 a g3 c1 g4 b' g5 c2 g6 d g2) data = .ok v.toStr := by
+  obtain ⟨prog, t2, t3, t4, t5, t6, hp, l3, l5, hs⟩ := parse_arith3_source g1 a g3 c1 ty1 pr1 g4 b' g5 c2 ty2 pr2 g6 d g2 hg1 hg2 hg3 hg4 hg5 hg6
+    ha hbd hdd hop1 hop2 (by omega) (by omega) (by omega)
+  unfold evaluateStringPure envOrFail
+  rw [hp]
+  simp only [h, hs, arith3Tree, hlt, if_true, l3, l5]
+  rw [show evalFuel = (evalFuel - 6) + 1 + 1 + 1 + 1 + 1 + 1 from by decide, evalProg_cons, evalStmt_succ]
+  simp only [stmtBody, calleesAt_expr]
+  simp only [evalExpr, infixOp, Val.type, h1, h2, show (VType.INTEGER != VType.INTEGER) = false from by decide, Bool.false_eq_true, if_false, Res.bind_ok]
+  rw [evalProg_nil]
+  simp [resToOut]
+
+/-- **… and otherwise to the left**: a second operator that binds no tighter than the first (the same
+    level, or a lower one) applies to the result of the first: the render is `(a op1 b) op2 d`. -/
+theorem operators_of_one_level_group_to_the_left_from_source (custom : List ((VType × Bytes) × Nat)) (data : List (Bytes × GoVal)) (env : Env)
+    (h : envFromMap data = .ok env) (a b' d : Bytes) (ha : isDigits a) (hbd : isDigits b') (hdd : isDigits d)
+    (hba : digitsToNat a < 2 ^ 63) (hbb : digitsToNat b' < 2 ^ 63) (hbd' : digitsToNat d < 2 ^ 63)
+    (c1 : Byte) (ty1 : TT) (pr1 : Nat) (c2 : Byte) (ty2 : TT) (pr2 : Nat) (hop1 : ArithOp c1 ty1 pr1) (hop2 : ArithOp c2 ty2 pr2)
+    (hge : ¬ pr1 < pr2)
+    (g1 g2 g3 g4 g5 g6 : Bytes) (hg1 : allWs g1) (hg2 : allWs g2) (hg3 : allWs g3) (hg4 : allWs g4) (hg5 : allWs g5) (hg6 : allWs g6)
+    (x : Int64) (v : Val)
+    (h1 : ∀ line, intInfix [c1] (Int64.ofNat (digitsToNat a)) (Int64.ofNat (digitsToNat b')) line = .ok (.int x))
+    (h2 : ∀ line, intInfix [c2] x (Int64.ofNat (digitsToNat d)) line = .ok v) :
+    evaluateStringPure custom (arith3Src g1 a g3 c1 g4 b' g5 c2 g6 d g2) data = .ok v.toStr := by
+  obtain ⟨prog, t2, t3, t4, t5, t6, hp, l3, l5, hs⟩ := parse_arith3_source g1 a g3 c1 ty1 pr1 g4 b' g5 c2 ty2 pr2 g6 d g2 hg1 hg2 hg3 hg4 hg5 hg6
+    ha hbd hdd hop1 hop2 (by omega) (by omega) (by omega)
+  unfold evaluateStringPure envOrFail
+  rw [hp]
+  simp only [h, hs, arith3Tree, hge, if_false, l3, l5]
+  rw [show evalFuel = (evalFuel - 6) + 1 + 1 + 1 + 1 + 1 + 1 from by decide, evalProg_cons, evalStmt_succ]
+  simp only [stmtBody, calleesAt_expr]
+  simp only [evalExpr, infixOp, Val.type, h1, h2, show (VType.INTEGER != VType.INTEGER) = false from by decide, Bool.false_eq_true, if_false, Res.bind_ok]
+  rw [evalProg_nil]
+  simp [resToOut]
+
+example : evaluateStringPure [] (b "{{ 2 + 3 * 4 }}") [] = .ok (b "14") := by
+  have := tighter_second_operator_takes_the_middle_from_source [] [] [[]] (by rfl) (b "2") (b "3") (b "4") (by decide) (by decide) (by decide)
+    (by decide) (by decide) (by decide) 43 .ADD SUM 42 .MUL PRODUCT (Or.inr ⟨Or.inl ⟨rfl, rfl⟩, rfl⟩) (Or.inl ⟨Or.inl ⟨rfl, rfl⟩, rfl⟩) (by decide)
+    [32] [32] [32] [32] [32] [32] (by decide) (by decide) (by decide) (by decide) (by decide) (by decide) 12 (.int 14) (fun _ => by rfl) (fun _ => by rfl)
+  have hs : arith3Src [32] (b "2") [32] 43 [32] (b "3") [32] 42 [32] (b "4") [32] = b "{{ 2 + 3 * 4 }}" := by decide
+  rw [hs] at this
+  rw [this]; rfl
+
+example : evaluateStringPure [] (b "{{ 10 - 4 - 3 }}") [] = .ok (b "3") := by
+  have := operators_of_one_level_group_to_the_left_from_source [] [] [[]] (by rfl) (b "10") (b "4") (b "3") (by decide) (by decide) (by decide)
+    (by decide) (by decide) (by decide) 45 .SUB SUM 45 .SUB SUM (Or.inr ⟨Or.inr ⟨rfl, rfl⟩, rfl⟩) (Or.inr ⟨Or.inr ⟨rfl, rfl⟩, rfl⟩) (by decide)
+    [32] [32] [32] [32] [32] [32] (by decide) (by decide) (by decide) (by decide) (by decide) (by decide) 6 (.int 3) (fun _ => by rfl) (fun _ => by rfl)
+  have hs : arith3Src [32] (b "10") [32] 45 [32] (b "4") [32] 45 [32] (b "3") [32] = b "{{ 10 - 4 - 3 }}" := by decide
+  rw [hs] at this
+  rw [this]; rfl
+
+/-- **parentheses override the binding powers, from the source bytes on**: `{{ a op1 ( b op2 d ) }}` —
+    three integer literals, any two of the five arithmetic operators, any white space around every token —
+    renders `a op1 (b op2 d)`, whatever the two binding powers are (`10 - (4 - 3)` is nine,
+    `2 * (3 + 4)` is fourteen). -/
+theorem parentheses_override_binding_power_from_source (custom : List ((VType × Bytes) × Nat)) (data : List (Bytes × GoVal)) (env : Env)
+    (h : envFromMap data = .ok env) (a b' d : Bytes) (ha : isDigits a) (hbd : isDigits b') (hdd : isDigits d)
+    (hba : digitsToNat a < 2 ^ 63) (hbb : digitsToNat b' < 2 ^ 63) (hbd' : digitsToNat d < 2 ^ 63)
+    (c1 : Byte) (ty1 : TT) (pr1 : Nat) (c2 : Byte) (ty2 : TT) (pr2 : Nat) (hop1 : ArithOp c1 ty1 pr1) (hop2 : ArithOp c2 ty2 pr2)
+    (g1 g2 g3 g4 g5 g6 g7 g8 : Bytes) (hg1 : allWs g1) (hg2 : allWs g2) (hg3 : allWs g3) (hg4 : allWs g4) (hg5 : allWs g5) (hg6 : allWs g6)
+    (hg7 : allWs g7) (hg8 : allWs g8) (y : Int64) (v : Val)
+    (h1 : ∀ line, intInfix [c2] (Int64.ofNat (digitsToNat b')) (Int64.ofNat (digitsToNat d)) line = .ok (.int y))
+    (h2 : ∀ line, intInfix [c1] (Int64.ofNat (digitsToNat a)) y line = .ok v) :
+    evaluateStringPure custom (parenSrc g1 a g3 c1 g4 g5 b' g6 c2 g7 d g8 g2) data = .ok v.toStr := by
+  obtain ⟨prog, t2, t3, t5, t6, t7, t8, hp, hs⟩ := parse_paren_source g1 a g3 c1 ty1 pr1 g4 g5 b' g6 c2 ty2 pr2 g7 d g8 g2
+    hg1 hg2 hg3 hg4 hg5 hg6 hg7 hg8 ha hbd hdd hop1 hop2 (by omega) (by omega) (by omega)
+  unfold evaluateStringPure envOrFail
+  rw [hp]
+  simp only [h, hs]
+  rw [show evalFuel = (evalFuel - 6) + 1 + 1 + 1 + 1 + 1 + 1 from by decide, evalProg_cons, evalStmt_succ]
+  simp only [stmtBody, calleesAt_expr]
+  simp only [evalExpr, infixOp, Val.type, h1, h2, show (VType.INTEGER != VType.INTEGER) = false from by decide, Bool.false_eq_true, if_false, Res.bind_ok]
+  rw [evalProg_nil]
+  simp [resToOut]
+
+example : evaluateStringPure [] (b "{{ 10 - (4 - 3) }}") [] = .ok (b "9") := by
+  have := parentheses_override_binding_power_from_source [] [] [[]] (by rfl) (b "10") (b "4") (b "3") (by decide) (by decide) (by decide)
+    (by decide) (by decide) (by decide) 45 .SUB SUM 45 .SUB SUM (Or.inr ⟨Or.inr ⟨rfl, rfl⟩, rfl⟩) (Or.inr ⟨Or.inr ⟨rfl, rfl⟩, rfl⟩)
+    [32] [32] [32] [32] [] [32] [32] [] (by decide) (by decide) (by decide) (by decide) (by decide) (by decide) (by decide) (by decide)
+    1 (.int 9) (fun _ => by rfl) (fun _ => by rfl)
+  have hs : parenSrc [32] (b "10") [32] 45 [32] [] (b "4") [32] 45 [32] (b "3") [] [32] = b "{{ 10 - (4 - 3) }}" := by decide
+  rw [hs] at this
+  rw [this]; rfl
+
+/-- **the ternary selects by the truthiness of its condition, from the source bytes on**: `{{ k ? a : b }}` —
+    a name bound in the data, two integer literals, any white space around every token — renders `a`
+    when the value of `k` is truthy and `b` when it is not; the other branch is not evaluated. -/
+theorem ternary_selects_from_source (custom : List ((VType × Bytes) × Nat)) (data : List (Bytes × GoVal)) (env : Env)
+    (h : envFromMap data = .ok env) (k : Bytes) (hk : isName k) (v : Val) (hget : env.get k = some v)
+    (a b' : Bytes) (ha : isDigits a) (hbd : isDigits b') (hba : digitsToNat a < 2 ^ 63) (hbb : digitsToNat b' < 2 ^ 63)
+    (g1 g2 g3 g4 g5 g6 : Bytes) (hg1 : allWs g1) (hg2 : allWs g2) (hg3 : allWs g3) (hg4 : allWs g4) (hg5 : allWs g5) (hg6 : allWs g6) :
+    evaluateStringPure custom (ternSrc g1 k g3 g4 a g5 g6 b' g2) data =
+      .ok (int64ToBytes (Int64.ofNat (digitsToNat (if isTruthy v then a else b')))) := by
+  obtain ⟨prog, t2, t3, t4, t6, hp, hs⟩ := parse_tern_source g1 k g3 g4 a g5 g6 b' g2 hg1 hg2 hg3 hg4 hg5 hg6 hk ha hbd (by omega) (by omega)
+  unfold evaluateStringPure envOrFail
+  rw [hp]
+  simp only [h, hs]
+  rw [show evalFuel = (evalFuel - 6) + 1 + 1 + 1 + 1 + 1 + 1 from by decide, evalProg_cons, evalStmt_succ]
+  simp only [stmtBody, calleesAt_expr]
+  simp only [evalExpr, hget]
+  cases ht : isTruthy v
+  · simp only [Bool.false_eq_true, if_false, Res.bind_ok]
+    rw [evalProg_nil]
+    simp [resToOut, Val.toStr]
+  · simp only [if_true, Res.bind_ok]
+    rw [evalProg_nil]
+    simp [resToOut, Val.toStr]
+
+example : evaluateStringPure [] (b "{{ ok ? 1 : 2 }}") [(b "ok", .str [])] = .ok (b "2") := by
+  have := ternary_selects_from_source [] [(b "ok", .str [])] [[(b "ok", .str [])]] (by rfl) (b "ok") (by decide) (.str []) (by rfl)
+    (b "1") (b "2") (by decide) (by decide) (by decide) (by decide) [32] [32] [32] [32] [32] [32]
+    (by decide) (by decide) (by decide) (by decide) (by decide) (by decide)
+  have hs : ternSrc [32] (b "ok") [32] [32] (b "1") [32] [32] (b "2") [32] = b "{{ ok ? 1 : 2 }}" := by decide
+  rw [hs] at this
+  rw [this]; rfl
+
+example : evaluateStringPure [] (b "{{ 010 }}") [] = .ok (b "10") := by
+  have := int_literal_prints_from_source [] [] [[]] (by rfl) (b "010") (by decide) (by decide) [32] [32] (by decide) (by decide)
+  have hs : intSrc [32] (b "010") [32] = b "{{ 010 }}" := by decide
+  rw [hs] at this
+  rw [this]; rfl
+
+example : evaluateStringPure [] (b "{{ 6 * 7 }}") [] = .ok (b "42") := by
+  have := int_product_prints_from_source [] [] [[]] (by rfl) (b "6") (b "7") (by decide) (by decide) (by decide) (by decide)
+    [32] [32] [32] [32] (by decide) (by decide) (by decide) (by decide)
+  have hs : arithSrc [32] (b "6") [32] 42 [32] (b "7") [32] = b "{{ 6 * 7 }}" := by decide
+  rw [hs] at this
+  rw [this]; rfl
 
 end Tw.C01
